@@ -4,6 +4,8 @@
 cd "$(dirname "$0")/.."
 out=${1:-/tmp/verif-regress.log}
 jobs=${2:-4}
+# every stored patch is exported once and then shared by the 20 properties: keep all fact sets (about 11 MB each) for the duration of the run
+export VERIF_FACTS_KEEP=${VERIF_FACTS_KEEP:-700}
 : > $out
 # the reference function table must describe /repo's HEAD (regenerate with tools/gen_anchor_table.py after every /repo commit)
 python3 - >> $out <<'PY'
